@@ -42,6 +42,13 @@ func registerVF(P *Program) {
 		in.addPC(in.ts.ILt(t, in.ts.Int(realTimeHi)))
 		return TimeV{t}
 	})
+	r("TimeZ", func(in *Interp, args []Value) Value {
+		// a timestamp that may also be the zero time
+		t := in.ts.FreshSym(argStr(args[0]), IntSort)
+		in.addPC(in.ts.Or(in.ts.Eq(t, in.ts.Int(zeroTimeNs)),
+			in.ts.And(in.ts.ILt(in.ts.Int(realTimeLo), t), in.ts.ILt(t, in.ts.Int(realTimeHi)))))
+		return TimeV{t}
+	})
 	r("ZeroTime", func(in *Interp, args []Value) Value { return TimeV{in.ts.Int(zeroTimeNs)} })
 	r("Bytes", func(in *Interp, args []Value) Value {
 		name := argStr(args[0])
@@ -142,6 +149,11 @@ func registerVF(P *Program) {
 	r("Not", func(in *Interp, args []Value) Value { return in.ts.Not(args[0].(*Term)) })
 	r("Iff", func(in *Interp, args []Value) Value { return in.ts.Eq(args[0].(*Term), args[1].(*Term)) })
 	r("Eq", func(in *Interp, args []Value) Value { return in.deepEq(args[0], args[1]) })
+	r("EqLoose", func(in *Interp, args []Value) Value {
+		in.looseEq = true
+		defer func() { in.looseEq = false }()
+		return in.deepEq(args[0], args[1])
+	})
 	r("BytesEq", func(in *Interp, args []Value) Value { return in.bytesEq(args[0].(SliceV), args[1].(SliceV)) })
 	r("StrEq", func(in *Interp, args []Value) Value { return in.ts.Eq(args[0].(*Term), args[1].(*Term)) })
 	r("IteInt", func(in *Interp, args []Value) Value {
@@ -178,6 +190,9 @@ func registerVF(P *Program) {
 		}
 		return in.ts.App(name, BoolSort, ins...)
 	})
+	r("RegisterUFBytes", func(in *Interp, args []Value) Value { return nil })
+	r("RegisterUFBool", func(in *Interp, args []Value) Value { return nil })
+	r("Reset", func(in *Interp, args []Value) Value { return nil })
 	r("Note", func(in *Interp, args []Value) Value { in.res.note(argStr(args[0])); return nil })
 	r("Now", func(in *Interp, args []Value) Value { return TimeV{in.now()} })
 }
